@@ -55,8 +55,10 @@ Proof. reflexivity. Qed.
 Lemma tag_spec_some i t : tag_spec i = Some t ->
   (i < 7 /\ t = 121 + i) \/ (7 <= i < 128 /\ t = 1280 + (i - 7)).
 Proof.
-  unfold tag_spec. destruct (i <? 7) eqn:A; [intros [= <-]; left ; blia|].
-  destruct (i <? 128) eqn:B; [intros [= <-]; right ; blia | discriminate].
+  unfold tag_spec. destruct (i <? 7) eqn:A.
+  { intros H. assert (121 + i = t) by congruence. clear H. blia. }
+  destruct (i <? 128) eqn:B; [|discriminate].
+  intros H. assert (1280 + (i - 7) = t) by congruence. clear H. blia.
 Qed.
 
 Lemma tag_spec_none i : tag_spec i = None <-> 128 <= i.
@@ -106,10 +108,12 @@ Lemma untag_spec_accepts t len i : untag_spec t len = UWhole i -> tag_spec i = S
 Proof.
   unfold untag_spec. destruct (t =? 102) eqn:A; [destruct (len =? 2); discriminate|].
   destruct ((121 <=? t) && (t <=? 127)) eqn:B.
-  { intros [= <-]. unfold tag_spec. destruct (t - 121 <? 7) eqn:E; [f_equal ; blia | blia]. }
+  { intros H. assert (E : t - 121 = i) by congruence. clear H. subst i.
+    unfold tag_spec. destruct (t - 121 <? 7) eqn:E; [f_equal; blia | blia]. }
   destruct ((1280 <=? t) && (t <=? 1400)) eqn:D; [|discriminate].
-  intros [= <-]. unfold tag_spec. destruct (t - 1280 + 7 <? 7) eqn:E; [blia|].
-  destruct (t - 1280 + 7 <? 128) eqn:F; [f_equal ; blia | blia].
+  intros H. assert (E : t - 1280 + 7 = i) by congruence. clear H. subst i.
+  unfold tag_spec. destruct (t - 1280 + 7 <? 7) eqn:E; [blia|].
+  destruct (t - 1280 + 7 <? 128) eqn:F; [f_equal; blia | blia].
 Qed.
 
 (* the pinned get_constructor_id_and_fields agrees with the ledger's on every tag up to 1400 and beyond 1535 *)
